@@ -192,6 +192,13 @@ fn queue_file_blocks(
         return Ok(len);
     }
 
+    if len == 0 {
+        // No blocks to queue, but the file may still have content.
+        let found = handle.copy_unsized()?;
+        handle.finalise()?;
+        return Ok(found);
+    }
+
     // Put the open files in an Arc, which we drop once work has been
     // queued. This will keep the files open until all work has been
     // consumed, then close them. (This may be overkill; opening the
